@@ -146,6 +146,16 @@ fn make_fixtures() -> Fixtures {
 			.collect();
 		let file = vmodel::container::cf_write(&meta, &layout, vmiri::fixtures::SYNC, name, &blocks).unwrap_or_else(|e| machinery(&format!("reference model cannot write the sized {name} fixture: {e}")));
 		fx.set_file(c, 1, file);
+		// file 2: strings that make a gathering ReaderRead grow its scratch after an amortised growth
+		let blocks: Vec<(u64, Vec<u8>)> = (0..vmiri::fixtures::file_lens(2).len())
+			.map(|k| {
+				let mut b = Vec::new();
+				rec(&vmiri::fixtures::file_value(2, k), &mut b);
+				(1, b)
+			})
+			.collect();
+		let file = vmodel::container::cf_write(&meta, &layout, vmiri::fixtures::SYNC, name, &blocks).unwrap_or_else(|e| machinery(&format!("reference model cannot write the {name} fixture (file 2): {e}")));
+		fx.set_file(c, 2, file);
 	}
 	fx
 }
@@ -965,6 +975,7 @@ pub fn run(rep: &mut Report) {
 	guard("values inspected after schema and reader were dropped", totals.inspections_after_owner_gone);
 	guard("reads from compressed blocks", totals.reads_compressed_ok);
 	guard("reads of a compressed block larger than every earlier one, after a smaller one (decompression buffer regrown)", totals.reads_regrown_block);
+	guard("gathered reads that grew the ReaderRead scratch after an earlier amortised growth", totals.scratch_regrow_reads);
 	guard("reader errors", totals.reads_err);
 	guard("operations on another thread", totals.remote_ops);
 	guard("schema obtained from a reader used after the reader was dropped", totals.reader_schema_used_after_reader_drop);
